@@ -485,11 +485,13 @@ func (b *Builder) SetRevisionDate(o interface{}, revisionDate string) {
 }
 
 func (b *Builder) Unique(o interface{}, unique string) {
-	i, valid := o.(*List)
-	if !valid {
-		b.setErr(fmt.Errorf("%T does not support key, only lists do", o))
-	} else {
+	if i, valid := o.(*List); valid {
 		i.unique = append(i.unique, strings.Split(unique, " "))
+	} else if h, valid := o.(HasUnique); valid {
+		// deviate add / deviate delete
+		h.setUnique(append(h.Unique(), strings.Split(unique, " ")))
+	} else {
+		b.setErr(fmt.Errorf("%T does not support unique", o))
 	}
 }
 
